@@ -37,8 +37,8 @@ def cname(n):
 
 
 class Gen:
-    def __init__(s, mod, uf=False, ovr=()):
-        s.m = mod; s.uf = uf; s.ovr = set(ovr)
+    def __init__(s, mod, uf=False, ovr=(), alloc_hook=False):
+        s.m = mod; s.uf = uf; s.ovr = set(ovr); s.alloc_hook = alloc_hook
         s.tnames = {}; s.tdefs = []; s.all_types = []; s.body = []; s.protos = []
         s.retyped = {}
         s.helpers = {}       # C element type -> helper id (typed calloc/realloc/zero/copy)
@@ -249,8 +249,8 @@ class Gen:
         for T_, k in s.helpers.items():
             zero = '(%s){0}' % T_ if T_.startswith('struct ') else '0'
             o.append('''#ifdef __CPROVER__
-static %(T)s* vf_calloc_%(k)s(u64 n) { %(T)s* p = malloc(sizeof(%(T)s) * n); if (p) for (u64 i = 0; i < n; ++i) p[i] = %(z)s; return p; }
-static %(T)s* vf_realloc_%(k)s(%(T)s* old, u64 n) { %(T)s* p = malloc(sizeof(%(T)s) * n); if (!p) return p; if (old) { u64 on = __CPROVER_OBJECT_SIZE(old) / sizeof(%(T)s); for (u64 i = 0; i < on && i < n; ++i) p[i] = old[i]; free(old); } return p; }
+static %(T)s* vf_calloc_%(k)s(u64 n) { if (VF_HOOK()) return 0; %(T)s* p = malloc(sizeof(%(T)s) * n); if (p) for (u64 i = 0; i < n; ++i) p[i] = %(z)s; return p; }
+static %(T)s* vf_realloc_%(k)s(%(T)s* old, u64 n) { if (VF_HOOK()) return 0; %(T)s* p = malloc(sizeof(%(T)s) * n); if (!p) return p; if (old) { u64 on = __CPROVER_OBJECT_SIZE(old) / sizeof(%(T)s); for (u64 i = 0; i < on && i < n; ++i) p[i] = old[i]; free(old); } return p; }
 static void vf_zero_%(k)s(%(T)s* p, u64 n) { for (u64 i = 0; i < n; ++i) p[i] = %(z)s; }
 static void vf_copy_%(k)s(%(T)s* d, %(T)s* s, u64 n) { for (u64 i = 0; i < n; ++i) d[i] = s[i]; }
 static void vf_move_%(k)s(%(T)s* d, %(T)s* s, u64 n) { if (d <= s) { for (u64 i = 0; i < n; ++i) d[i] = s[i]; } else { for (u64 i = n; i > 0; --i) d[i - 1] = s[i - 1]; } }
@@ -518,12 +518,16 @@ static void vf_move_%(k)s(%(T)s* d, %(T)s* s, u64 n) { memmove(d, s, n * sizeof(
         if callee in ('@malloc', '@calloc', '@realloc') and callee[1:] not in s.ovr and I.dst in alloc_type \
            and not isinstance(s.resolve(alloc_type[I.dst]), (TVoid, TFunc, TOpaque)):
             T_ = s.ct(alloc_type[I.dst]); k = s.helper(T_)
-            if callee == '@malloc': e = 'malloc(sizeof(%s) * (%s / sizeof(%s)))' % (T_, args[0], T_)
+            if callee == '@malloc':
+                e = 'malloc(sizeof(%s) * (%s / sizeof(%s)))' % (T_, args[0], T_)
+                if s.alloc_hook: return 'if (VF_HOOK()) %s0; else %s(%s)%s;' % (asg, asg, rc, e)
             elif callee == '@calloc': e = 'vf_calloc_%s((%s * %s) / sizeof(%s))' % (k, args[0], args[1], T_)
             else: e = 'vf_realloc_%s((%s*)%s, %s / sizeof(%s))' % (k, T_, args[0], args[1], T_)
             return '%s(%s)%s;' % (asg, rc, e)
         if callee in ('@sqrt', '@fabs') and s.uf and not (callee == '@fabs' and s.uf == 'muldiv'):
             return (s.ufcall(callee[1:], *args),)
+        if callee in ('@malloc', '@calloc') and s.alloc_hook and callee[1:] not in s.ovr:
+            return 'if (VF_HOOK()) %s0; else %s(%s)%s(%s);' % (asg, asg, rc, callee[1:], ', '.join(args))
         if callee and s.is_header_fn(callee):
             cexpr = cname(callee)
             call = '%s(%s)' % (cexpr, ', '.join('(void*)' + a if isinstance(s.resolve(t), TPtr) else a for t, a in zip(atys, args)))
@@ -648,6 +652,7 @@ static void vf_move_%(k)s(%(T)s* d, %(T)s* s, u64 n) { memmove(d, s, n * sizeof(
             if ft.va: args = (args + ', ...') if args else '...'
             o.append('%s %s(%s);' % (s.ct(ft.ret), s.fname(nm), args or 'void'))
         o += o2
+        o += ['#ifdef __CPROVER__', ('extern u32 vf_alloc_hook(void);\n#define VF_HOOK() vf_alloc_hook()' if s.alloc_hook else '#define VF_HOOK() 0'), '#else', '#define VF_HOOK() 0', '#endif']
         o += s.helper_defs()
         o += s.protos + ['extern %s%s g_%s;' % ('const ' if g.const else '', s.ct(g.ty), cname(nm)) for nm, g in m.gl.items()] + gvals + s.body
         return '\n'.join(o) + '\n'
@@ -659,6 +664,6 @@ if __name__ == '__main__':
     ovr = []
     if '--ovr' in a: ovr = a[a.index('--ovr') + 1].split(',')
     text = open(a[0]).read()
-    g = Gen(Module(text), uf=uf, ovr=ovr)
+    g = Gen(Module(text), uf=uf, ovr=ovr, alloc_hook='--alloc-hook' in a)
     g.retype_packed_globals(text)
     sys.stdout.write(g.generate())
